@@ -21,7 +21,13 @@ import ast
 import builtins
 import copy
 import os
+import pickle
 import pprint as _pprint
+import select
+import signal
+import sys
+import time
+import traceback
 
 from .. import core
 from ..core import cz, cbool
@@ -29,7 +35,7 @@ from ..runner import Entry, differential
 from . import c01_translate
 
 PRE = ("From EsVerif.Common Require Import Base Bytes.\n"
-       "From EsVerif.C01 Require Import Framing Model Spec Exec.\n"
+       "From EsVerif.C01 Require Import Framing Model Spec Big Exec.\n"
        "From Coq.Strings Require Import Byte.\nOpen Scope list_scope.\n")
 
 _TMP = [None, 0]
@@ -39,7 +45,157 @@ KF_NONCONTIG = "C01.kf_noncontiguous_write"
 RESERVED_LOWER = ("_size", "_nrows", "_delim", "_shape", "_has_fields", "_dtype", "_version")
 
 
+_FORCED = [None]
+
+
+class _Worker:
+    """A forked child that runs fn(*args) — calls into the REAL esutil — on request and stays alive between cases (one
+    fork per entry point, not per case).  A segfault / abort / hang of the (possibly mutated) C extension costs one case:
+    call() returns ("crash", reason) for it and the next call starts a fresh child.  An exception of the harness itself
+    is re-raised in the parent."""
+    live = []
+
+    def __init__(self, fn):
+        self.fn = fn
+        self.pid = None
+
+    def _start(self):
+        for w in list(_Worker.live):          # one worker at a time
+            w.close()
+        pr, cw = os.pipe()
+        cr, pw = os.pipe()
+        sys.stdout.flush()
+        sys.stderr.flush()
+        pid = os.fork()
+        if pid == 0:
+            try:
+                os.close(pr)
+                os.close(pw)
+                fin, fout = os.fdopen(cr, "rb"), os.fdopen(cw, "wb")
+                while True:
+                    h = fin.read(8)
+                    if len(h) < 8:
+                        break
+                    args = pickle.loads(fin.read(int.from_bytes(h, "little")))
+                    _FORCED[0] = args[0]
+                    try:
+                        payload = pickle.dumps(("ok", self.fn(*args[1:])))
+                    except BaseException:  # noqa
+                        payload = pickle.dumps(("exc", traceback.format_exc()))
+                    fout.write(len(payload).to_bytes(8, "little") + payload)
+                    fout.flush()
+            finally:
+                os._exit(0)
+        os.close(cr)
+        os.close(cw)
+        self.pid, self.r, self.w = pid, pr, pw
+        _Worker.live.append(self)
+
+    def _reap(self, kill=False):
+        if kill:
+            try:
+                os.kill(self.pid, signal.SIGKILL)
+            except OSError:
+                pass
+        for fd in (self.r, self.w):
+            try:
+                os.close(fd)
+            except OSError:
+                pass
+        _, status = os.waitpid(self.pid, 0)
+        self.pid = None
+        if self in _Worker.live:
+            _Worker.live.remove(self)
+        if os.WIFSIGNALED(status):
+            sig = os.WTERMSIG(status)
+            try:
+                nm = signal.Signals(sig).name
+            except ValueError:
+                nm = "?"
+            return "killed by signal %d (%s)" % (sig, nm)
+        return "exit status %d without an answer" % os.WEXITSTATUS(status)
+
+    def close(self):
+        if self.pid is not None:
+            try:
+                os.close(self.w)
+            except OSError:
+                pass
+            self.w = -1
+            self._reap()
+
+    def _read(self, n, deadline):
+        buf = b""
+        while len(buf) < n:
+            left = deadline - time.time()
+            if left <= 0:
+                return None
+            rl, _, _ = select.select([self.r], [], [], left)
+            if not rl:
+                return None
+            b = os.read(self.r, min(1 << 20, n - len(buf)))
+            if not b:
+                return buf                      # EOF: the child is gone
+            buf += b
+        return buf
+
+    def call(self, path, *args, timeout=240):
+        if self.pid is None:
+            self._start()
+        msg = pickle.dumps((path,) + args)
+        msg = len(msg).to_bytes(8, "little") + msg
+        try:
+            while msg:
+                msg = msg[os.write(self.w, msg):]
+        except OSError:
+            return "crash", self._reap(kill=True)
+        deadline = time.time() + timeout
+        h = self._read(8, deadline)
+        body = self._read(int.from_bytes(h, "little"), deadline) if (h is not None and len(h) == 8) else None
+        if h is None or (len(h) == 8 and body is None):
+            self._reap(kill=True)
+            return "crash", "no answer within %d s (killed)" % timeout
+        if len(h) < 8 or len(body) < int.from_bytes(h, "little"):
+            return "crash", self._reap()
+        st, val = pickle.loads(body)
+        if st == "exc":
+            raise RuntimeError("harness error inside an isolated call:\n" + val)
+        return "ok", val
+
+
+class IsoEntry(Entry):
+    """an Entry whose impl() drives the real code in a forked child (see _Worker)"""
+    ext = ".rec"
+    crash_verdict = "(verdict false false)"        # the real code died on an input of the statement: failing input
+
+    def _impl(self, c):
+        raise NotImplementedError
+
+    def post(self, c, out):
+        pass
+
+    def impl(self, c):
+        path = _fname(self.ext)
+        if getattr(self, "_worker", None) is None:
+            self._worker = _Worker(self._impl)
+        try:
+            st, val = self._worker.call(path, c)
+        finally:
+            try:
+                os.remove(path)
+            except OSError:
+                pass
+        if st == "ok":
+            out = val
+        else:
+            out = {"crash": val, "file": "", "read": ("err", "EOther", "the real code died: " + val)}
+        self.post(c, out)
+        return out
+
+
 def _fname(ext=".rec"):
+    if _FORCED[0] is not None:
+        return _FORCED[0]
     _TMP[1] += 1
     d = _TMP[0] or os.path.join(core.SCRATCH_ROOT, "esutil-verif-c01.%d" % os.getpid())
     os.makedirs(d, exist_ok=True)
@@ -180,12 +336,14 @@ def gen_rows(r, fields, nrows):
 STRS = ["v", "THE END", "END", "\nEND\n", "END\n", "SIZE", "SIZE = 3", "SIZE =                    9", "it's", 'say "hi"',
         "both ' and \"", "line1\nline2", "tab\there", "back\\slash", "ünïcöde", "日本", "\x00nul", "\x7f\x1b",
         " sep", "", " ", "{'a': 1}", "END" * 30, "word " * 40, "x" * 200, "a b c d e f g h i j k l m n o p q r s t u v w x y z " * 4,
-        "WEEKEND", "\\nEND\\n", "'END'", "=", "==", "%s %d %%", "#comment", "1.0", "None"]
+        "WEEKEND", "\\nEND\\n", "'END'", "=", "==", "%s %d %%", "#comment", "1.0", "None",
+        # printf directives: the header text must never be taken for a format
+        "%", "%%", "%s", "%n", "%d", "100%% of tiles", "50% done", "%5.2f%%", "%c%c%c%c", "%ld rows", "%%%"]
 KEYS = ["k", "key1", "END", "SIZE", "_x", "THE END", "a b", "é", "x" * 30, "end", "it's", 'q"uote', "TREND", "date",
         "age", "note", "N", "_END", "_SIZE_", "list", "nested", "v1", "v2", "v3", "z", "_", "new\nline", "=", "dataset", "pyvers",
         # underscore-prefixed names that are NOT the reserved ones (other case, other words): must be kept
         "_Foo", "_Size", "_Version", "_myKey", "__dunder__", "_Nrows", "_Shape", "_sIZE", "size", "nrows", "shape", "delim",
-        "has_fields", "dtype", "version", "Size", "DELIM"]
+        "has_fields", "dtype", "version", "Size", "DELIM", "%", "%%", "%s", "%d", "%n", "pct%", "k%s"]
 RES_EXACT = ["_size", "_SIZE", "_nrows", "_NROWS", "_delim", "_DELIM", "_shape", "_SHAPE", "_has_fields", "_HAS_FIELDS",
              "_DTYPE", "_VERSION"]
 
@@ -265,6 +423,9 @@ ADV = [
     ("adv:near-reserved-kept", [["x", "<i4", []], ["y", ">f8", []]], {"_Size": 3, "_Version": "x", "_Nrows": 2, "_Foo": 1, "size": 5, "nrows": 6,
                                                                    "shape": (1,), "delim": ",", "has_fields": True, "dtype": "f8", "version": 2,
                                                                    "_x": 0, "__dunder__": None, "_sIZE": "abc", "_Shape": [1]}),
+    ("adv:percent", [["x", "<i4", []], ["y", ">f8", []]], {"completeness": "100%% of tiles", "p": "50% done", "%": "%d", "k%s": "%s",
+                                                         "fmt": "%5.2f%%", "n": "%n", "l": ["%", "%%", ("%s",)], "b": b"%s%n"}),
+    ("adv:percent-mild", [["x", "<i4", []], ["y", ">f8", []]], {"completeness": "100%% of tiles"}),
     ("adv:no-header", [["x", "<i4", []], ["y", ">f8", [2]]], None),
     ("adv:empty-header", [["x", "<i4", []], ["s", "|S5", [2]]], {}),
 ]
@@ -520,7 +681,7 @@ def monitor(text, head, data_dtype):
     return {"a": bool(a), "b": bool(b), "c": bool(c)}
 
 
-class SFileEntry(Entry):
+class SFileEntry(IsoEntry):
     """sfile.write/read, SFile(...).write/.read/[:], io.write/io.read for *.rec"""
     kind = "sfile_fn"
     grid = (0, 1)
@@ -539,7 +700,14 @@ class SFileEntry(Entry):
             c["via"] = ctx.rng.choice(["read", "slice"])
         return cs
 
-    def impl(self, c):
+    def post(self, c, out):
+        if out.get("monitor") is not None:
+            self.nmonitored += 1
+            self.texts.append(out["text"])
+            if not all(out["monitor"].values()):
+                self.monitor_failures.append({"entry": self.name, "case": c, "pformat_text": out["text"], "monitor": out["monitor"]})
+
+    def _impl(self, c):
         import numpy as np
         hdr = ast.literal_eval(c["header"]) if c.get("header") is not None else None
         data = make_data(c)
@@ -572,10 +740,6 @@ class SFileEntry(Entry):
             out["made_header"] = {"ukeys_order": uorder, "pairs": pairs}
         if text is not None:
             out["monitor"] = monitor(text, head, data.dtype)
-            self.nmonitored += 1
-            self.texts.append(text)
-            if not all(out["monitor"].values()):
-                self.monitor_failures.append({"entry": self.name, "case": c, "pformat_text": text, "monitor": out["monitor"]})
         out["scan"] = real_scan(fname)
         try:
             rdata, rhdr, texts = real_read(self.kind, fname, c.get("via", "read"))
@@ -602,6 +766,8 @@ class SFileEntry(Entry):
         return out
 
     def term(self, c, out):
+        if out.get("crash"):
+            return self.crash_verdict
         rows = c["rows"]
         lets = ["let rows := %s in" % crows(rows)]
         known = (rows, "rows")
@@ -684,7 +850,8 @@ class IoFn(SFileEntry):
     grid = (1, 2)
 
 
-class RecfileEntry(Entry):
+class RecfileEntry(IsoEntry):
+    ext = ".bin"
     """recfile.write/recfile.read and Recfile(...).write/.read/[:] given the dtype"""
     kind = "recfile_fn"
 
@@ -698,7 +865,7 @@ class RecfileEntry(Entry):
             c["via"] = ctx.rng.choice(["read", "slice"])
         return cs
 
-    def impl(self, c):
+    def _impl(self, c):
         import numpy as np
         import esutil.recfile as recfile
         data = make_data(c)
@@ -737,6 +904,8 @@ class RecfileEntry(Entry):
         return {"absent": None, "exact": len(c["rows"]), "none": None, "negative": -1}[c.get("nrows", "absent")]
 
     def term(self, c, out):
+        if out.get("crash"):
+            return self.crash_verdict
         rows = c["rows"]
         fileb = bytes.fromhex(out["file"])
         tail = b"".join(bytes.fromhex(x) for x in rows)
@@ -766,7 +935,7 @@ class RecfileCls(RecfileEntry):
     grid = (1, 2)
 
 
-class Region(Entry):
+class Region(IsoEntry):
     """written by sfile.write, data region read by the low-level Recfile given dtype + data offset
     (offset taken from the real scanner); also the raw bytes after the END line"""
     name = "sfile_region"
@@ -777,7 +946,7 @@ class Region(Entry):
             c["nrows"] = ctx.rng.choice(["absent", "exact"])
         return cs
 
-    def impl(self, c):
+    def _impl(self, c):
         import numpy as np
         import esutil.recfile as recfile
         hdr = ast.literal_eval(c["header"]) if c.get("header") is not None else None
@@ -807,6 +976,8 @@ class Region(Entry):
         return out
 
     def term(self, c, out):
+        if out.get("crash"):
+            return self.crash_verdict
         rows = c["rows"]
         fileb = bytes.fromhex(out["file"])
         tail = b"".join(bytes.fromhex(x) for x in rows)
@@ -847,7 +1018,8 @@ VIEWS = {
 }
 
 
-class LayoutEntry(Entry):
+class LayoutEntry(IsoEntry):
+    ext = ".bin"
     """"any structured array": the array exactly as numpy holds it (base buffer, offset of element 0,
     shape, strides) goes into Coq (Layout.v); Recfile.write is the common writer of every entry point"""
     name = "layout"
@@ -871,7 +1043,7 @@ class LayoutEntry(Entry):
                             cs.append({"dtype": fields, "rows": rows, "view": "slice", "slice": [a, b, st], "family": "layout-mem:slice-sweep"})
         return cs
 
-    def impl(self, c):
+    def _impl(self, c):
         import numpy as np
         import esutil.recfile as recfile
         dt = np_dtype_of(c["dtype"])
@@ -903,6 +1075,8 @@ class LayoutEntry(Entry):
                                            "; ".join("(%s, %s)" % (cz(n), cz(st)) for n, st in out["dims"]), cz(out["item"]))
 
     def term(self, c, out):
+        if out.get("crash"):
+            return self.crash_verdict
         rd = out["read"]
         nr = out["np_rows"]
         cout = "(Ok (%s, %s))" % (cdtype(rd[1]["dtype"] or []), crows(rd[1]["rows"], (nr, "rows"))) if rd[0] == "ok" else "(Err %s)" % rd[1]
@@ -924,7 +1098,246 @@ class LayoutEntry(Entry):
         return None
 
 
-class Malformed(Entry):
+# ----------------------------------------------------------------------------------------------
+# many rows: row counts around the block / buffer sizes a C reader or stdio could plausibly use
+# ----------------------------------------------------------------------------------------------
+
+EPS = ["sfile.read", "SFile.read", "SFile[:]", "io.read", "recfile.read", "Recfile.read", "Recfile[:]"]
+MAXRUNS = 300          # more runs than this: the read-back is irregular, a literal window goes to Coq instead (never verdict 0)
+
+
+def ap_encode(buf, s, maxruns=MAXRUNS):
+    """Lossless, generic: the byte string as runs (count, first, step) of s-byte little-endian numbers in arithmetic
+    progression mod 256^s (Big.dec_runs is the decoder).  Looks only at `buf`.  None: length not a multiple of s, or
+    more than maxruns runs."""
+    if s <= 0 or len(buf) % s:
+        return None
+    n = len(buf) // s
+    v = [int.from_bytes(buf[i * s:(i + 1) * s], "little") for i in range(n)]
+    mod = 1 << (8 * s)
+    runs, i = [], 0
+    while i < n:
+        if i == n - 1:
+            runs.append((1, v[i], 0))
+            break
+        step = (v[i + 1] - v[i]) % mod
+        j = i + 1
+        while j + 1 < n and (v[j + 1] - v[j]) % mod == step:
+            j += 1
+        runs.append((j - i + 1, v[i], step))
+        i = j + 1
+        if len(runs) > maxruns:
+            return None
+    return [[c, f.to_bytes(s, "little").hex(), st.to_bytes(s, "little").hex()] for c, f, st in runs]
+
+
+def ap_decode(runs, s):
+    """mirror of Big.dec_runs (used only to validate the printer: decode(encode(x)) == x before x is printed as runs)"""
+    mod = 1 << (8 * s)
+    out = []
+    for c, f, st in runs:
+        f, st = int.from_bytes(bytes.fromhex(f), "little"), int.from_bytes(bytes.fromhex(st), "little")
+        out.append(b"".join(((f + k * st) % mod).to_bytes(s, "little") for k in range(c)))
+    return b"".join(out)
+
+
+def cruns(runs):
+    return "(dec_runs [%s])" % "; ".join("Run %s %s %s" % (cz(c), cbytes(bytes.fromhex(f)), cbytes(bytes.fromhex(st))) for c, f, st in runs)
+
+
+def small_dtype(r, s):
+    """one or two fields with s bytes per row"""
+    def base(k):
+        return r.choice([b for b in BASES if int(b[1:]) == k])
+
+    def fld(nm, b):
+        k = int(b[1:])
+        return [nm, ("|" if (k == 1 or b[0] == "S") else r.choice("<>")) + b, []]
+    have = sorted({int(b[1:]) for b in BASES})
+    two = [(a, s - a) for a in have if (s - a) in have]
+    if s in have and (not two or r.random() < 0.5):
+        return [fld("a", base(s))]
+    a, b = r.choice(two)
+    return [fld("a", base(a)), fld("END" if r.random() < 0.2 else "b", base(b))]
+
+
+class ManyRows(IsoEntry):
+    """tables with 2^k, 2^k +- 1 rows (k = 10..17) and 100003 rows, 2..16 bytes per row, through every reading entry point.
+    The rows are an arithmetic progression of s-byte numbers so that the table, the file and the read-back travel to Coq as
+    runs (Big.v) and are compared there as decoded byte lists."""
+    name = "many_rows"
+
+    def __init__(self):
+        self.monitor_failures = []
+        self.texts = []
+        self.nmonitored = 0
+
+    def cases(self, ctx, round=0):
+        r = ctx.rng
+        cs = []
+
+        def add(ep, n, s):
+            fields = small_dtype(r, s)
+            first = bytes(r.randrange(256) for _ in range(s))
+            step = bytes([r.randrange(256) | 1] + [r.randrange(256) for _ in range(s - 1)])
+            hdr = None if ep.startswith(("recfile", "Recfile")) else r.choice([None, {"k": "v"}, {"note": "END", "n": n}])
+            cs.append({"ep": ep, "dtype": fields, "nrows": n, "first": first.hex(), "step": step.hex(),
+                       "header": repr(hdr) if hdr is not None else None, "nrows_kw": r.choice(["absent", "absent", "exact"]),
+                       "family": "many-rows:%d" % n})
+
+        def rowsize_for(n, cap):
+            return r.choice([k for k in (2, 3, 4, 5, 6, 8, 10, 12, 16) if n * k <= cap] or [2])
+        if round > 0:
+            for ep in EPS:
+                add(ep, r.choice([16385, 32769]), r.choice([2, 3, 4]))
+            return cs
+        if ctx.quick():
+            small = [1023, 1024, 1025, 4095, 4096, 4097, 8191, 8192, 8193, 16383, 16384]
+            for i, ep in enumerate(EPS):
+                add(ep, 16385, [2, 3, 4, 6, 8, 5, 16][i])
+                add(ep, 32769, [4, 2, 6, 3, 2, 8, 4][i])
+                add(ep, 65537, [2, 3, 2, 4, 3, 2, 2][i])
+                for n in small[i::len(EPS)] + small[(i + 3) % len(EPS)::len(EPS)]:
+                    add(ep, n, rowsize_for(n, 1 << 17))
+        else:
+            sizes = sorted({(1 << k) + d for k in range(10, 18) for d in (-1, 0, 1)} | {100003})
+            for ep in EPS:
+                for n in sizes:
+                    add(ep, n, rowsize_for(n, 400000))
+        return cs
+
+    def post(self, c, out):
+        SFileEntry.post(self, c, out)
+
+    def _impl(self, c):
+        import numpy as np
+        import esutil.sfile as sfile    # noqa
+        import esutil.recfile as recfile
+        ep, n = c["ep"], c["nrows"]
+        dt = np_dtype_of(c["dtype"])
+        s = dt.itemsize
+        first, step = int.from_bytes(bytes.fromhex(c["first"]), "little"), int.from_bytes(bytes.fromhex(c["step"]), "little")
+        mask = (1 << (8 * s)) - 1
+        buf = b"".join(((first + i * step) & mask).to_bytes(s, "little") for i in range(n))
+        data = np.frombuffer(buf, dtype=dt).copy()
+        hdr = ast.literal_eval(c["header"]) if c.get("header") is not None else None
+        fname = _fname()
+        selfdesc = not ep.startswith(("recfile", "Recfile"))
+        out = {"s": s, "text": None, "monitor": None, "scan": ("err", "EOther", "not run"), "evaltext": ("err", "EOther", "not run"),
+               "pfx": "", "file_runs": None, "file_len": -1, "read": None, "ukeys": sorted(hdr) if hdr else [], "window": None}
+
+        def encode(b, what):
+            runs = ap_encode(b, s)
+            if runs is not None:
+                assert ap_decode(runs, s) == b, "printer: run encoding of %s is not lossless" % what
+            return runs
+
+        def window(b):
+            """rows of b around the first row that differs from the table written (only to choose WHICH rows are printed)"""
+            nb = len(b) // s
+            k = next((i for i in range(min(nb, n)) if b[i * s:(i + 1) * s] != buf[i * s:(i + 1) * s]), min(nb, n))
+            r0 = max(0, k - 1)
+            return [r0, [b[i * s:(i + 1) * s].hex() for i in range(r0, min(nb, r0 + 4))], nb]
+        try:
+            if selfdesc:
+                kind = {"sfile.read": "sfile_fn", "SFile.read": "sfile_cls", "SFile[:]": "sfile_cls", "io.read": "io_fn"}[ep]
+                text, head = real_write(kind, fname, data, hdr)
+                out["text"] = text
+                if text is not None:
+                    out["monitor"] = monitor(text, head, data.dtype)
+            elif ep == "recfile.read":
+                recfile.write(fname, data)
+            else:
+                with recfile.Recfile(fname, "w") as rf:
+                    rf.write(data)
+        except Exception as e:  # noqa
+            out["read"] = ("err", core.errclass(e), "write: %s: %s" % (type(e).__name__, str(e)[:200]))
+            return out
+        raw = open(fname, "rb").read()
+        hlen = 0
+        if selfdesc:
+            out["scan"] = real_scan(fname)
+            hlen = out["scan"][1][1] if out["scan"][0] == "ok" else max(0, len(raw) - len(buf))
+            hlen = min(max(hlen, 0), len(raw))
+        out["pfx"] = raw[:hlen].hex()
+        out["file_len"] = len(raw)
+        out["file_runs"] = encode(raw[hlen:], "the file's data region")
+        if out["file_runs"] is None:
+            out["window"] = ["file"] + window(raw[hlen:])
+        try:
+            if selfdesc:
+                rdata, rhdr, texts = real_read(kind, fname, "slice" if ep == "SFile[:]" else "read")
+                out["evaltext"] = ("ok", texts[1].encode().hex()) if len(texts) >= 2 else ("err", "EOther", "eval not reached")
+                try:
+                    hdt = fields_of(np.dtype(rhdr["_DTYPE"]))
+                except Exception:  # noqa
+                    hdt = None
+                size = rhdr.get("_SIZE")
+                extra = {"size": int(size) if isinstance(size, int) and not isinstance(size, bool) else -1, "hdtype": hdt,
+                         "keys": [[k, bool(k in rhdr and rhdr[k] == hdr[k])] for k in (hdr or {})]}
+            else:
+                kw = {"nrows": n} if c.get("nrows_kw") == "exact" else {}
+                if ep == "recfile.read":
+                    rdata = recfile.read(fname, dt, **kw)
+                else:
+                    with recfile.Recfile(fname, mode="r", dtype=dt, **kw) as rf:
+                        rdata = rf[:] if ep == "Recfile[:]" else rf.read()
+                extra = {}
+            ob = np.ascontiguousarray(rdata).tobytes()
+            oruns = encode(ob, "the rows read back") if (rdata.dtype.itemsize == s) else None
+            if oruns is None and out["window"] is None:
+                out["window"] = ["read"] + window(ob)
+            out["read"] = ("ok", dict(extra, dtype=fields_of(rdata.dtype) if (type(rdata) is np.ndarray and rdata.ndim == 1) else None,
+                                      runs=oruns, nrows=int(rdata.size)))
+        except Exception as e:  # noqa
+            out["read"] = ("err", core.errclass(e), "%s: %s" % (type(e).__name__, str(e)[:200]))
+        return out
+
+    def term(self, c, out):
+        if out.get("crash"):
+            return self.crash_verdict
+        s = out["s"]
+        rows = "let rows := %s in" % cruns([[c["nrows"], c["first"], c["step"]]])
+        if out["window"] is not None:
+            _, r0, lit, _ = out["window"]
+            return "%s v_big_window rows %s %s" % (rows, cz(r0), crows(lit))
+        rd = out["read"]
+        cfile_data = "concat %s" % cruns(out["file_runs"])
+        if c["ep"].startswith(("recfile", "Recfile")):
+            cout = ("(Ok (%s, %s))" % (cdtype(rd[1]["dtype"] or []), cruns(rd[1]["runs"]))) if rd[0] == "ok" else "(Err %s)" % rd[1]
+            nr = c["nrows"] if c.get("nrows_kw") == "exact" else None
+            return "%s v_big_recfile %s rows %s (%s) %s" % (rows, cdtype(c["dtype"]), copt(nr), cfile_data, cout)
+        text = (out["text"] or "").encode()
+        pfx = bytes.fromhex(out["pfx"])
+
+        def shared(b):
+            if b == pfx:
+                return "pfx"
+            if b == text:
+                return "d"
+            if text and b == text.replace(b"\n", b" "):
+                return "(nl2sp d)"
+            return cbytes(b)
+        scan, ev = out["scan"], out["evaltext"]
+        cscan = "(Ok (%s, %s))" % (shared(bytes.fromhex(scan[1][0])), cz(scan[1][1])) if scan[0] == "ok" else "(Err %s)" % scan[1]
+        cev = "(Ok %s)" % shared(bytes.fromhex(ev[1])) if ev[0] == "ok" else "(Err %s)" % ev[1]
+        if rd[0] == "ok":
+            o = rd[1]
+            cout = ("(Ok {| o_dtype := %s; o_rows := %s; o_size := %s; o_hdtype := %s; o_keys := [%s] |})" % (
+                cdtype(o["dtype"] or []), cruns(o["runs"]), cz(o["size"]), cdtype(o["hdtype"] or []),
+                "; ".join("(%s, %s)" % (cbytes(k.encode()), cbool(v)) for k, v in o["keys"])))
+        else:
+            cout = "(Err %s)" % rd[1]
+        ukeys = "[" + "; ".join(cbytes(k.encode()) for k in out["ukeys"]) + "]"
+        return "%s let d := %s in let pfx := %s in v_big_sfile d %s rows %s (pfx ++ %s) %s %s %s" % (
+            rows, cbytes(text), cprefix(pfx, text), cdtype(c["dtype"]), ukeys, cfile_data, cscan, cev, cout)
+
+    def nontrivial(self, c, out):
+        return True
+
+
+class Malformed(IsoEntry):
+    crash_verdict = "(verdict false true)"       # nothing is required of malformed files: a crash there is a disagreement
     """malformed stream (correspondence only; the property requires nothing here): truncated or
     extended self-describing files, a patched SIZE line, and the low-level reader with a wrong
     dtype / row count / offset."""
@@ -948,7 +1361,7 @@ class Malformed(Entry):
                                offset=r.choice([0, 0, 1, 3, rowsize(fields), 10 ** 4]), family="malformed:recfile"))
         return cs
 
-    def impl(self, c):
+    def _impl(self, c):
         import esutil.sfile as sfile
         import esutil.recfile as recfile
         data = make_data(c)
@@ -1002,6 +1415,8 @@ class Malformed(Entry):
         return out
 
     def term(self, c, out):
+        if out.get("crash"):
+            return self.crash_verdict
         fileb = bytes.fromhex(out["file"])
         rd = out["read"]
         if c["mode"] == "sfile":
@@ -1157,7 +1572,7 @@ def coqchk_step(ctx):
         ctx.violation("coqchk rejects C01/Properties.vo or reports axioms", {"kind": "coqchk", "log_tail": r.stdout[-2000:]}, found_input=False)
 
 
-ENTRIES = [SFileFn(), SFileCls(), IoFn(), RecfileFn(), RecfileCls(), LayoutEntry(), Region(), Malformed()]
+ENTRIES = [SFileFn(), SFileCls(), IoFn(), RecfileFn(), RecfileCls(), LayoutEntry(), ManyRows(), Region(), Malformed()]
 
 TRUSTED = [
     "Coq 8.16.1 kernel (coqc, vm_compute; no native_compute); every C01 theorem is closed under the global context (no axioms); "
